@@ -27,10 +27,11 @@ WALL = {"quick": 600, "thorough": 6 * 3600}
 SHRINK_WALL = {"quick": 120, "thorough": 900}
 SELFTEST_N = {"quick": 32, "thorough": 256}
 CHUNK = 8
-RULE = ("Scenario = seeded (graph, 1-2 Shapers with sources from {raw,file,rdflib,endpoint,url}, options, shared argument "
+RULE = ("Scenario = seeded (graph, 1-2 Shapers (thorough: up to 3) with sources from {raw,file,files,gz,zip,zips,rdflib,endpoint,url,urls}, options, shared argument "
         "objects, interleaved history of <=4 shex_graph/profile_graph calls per Shaper over {ShExC,SHACL}x{string,file}x"
         "{0,.5,1}, at most one armed fault, flush knob in {1,2,3,7,50,5000}); plus systematic sweeps placing one "
-        "source/sink/peer fault at every event index of sampled histories and default-knob outputs above 5 000 and 10 000 lines. "
+        "source/sink/peer fault at every event index of sampled histories, default-knob outputs above 5 000 and 10 000 lines, and "
+        "object-lifetime scenarios (forty extractions one after the other in one process, each dropped before the next, each compared with a pristine process). "
         "Non-trivial = at least one non-empty shape AND (>=2 calls on one Shaper, or argument objects shared between two "
         "Shapers, or a fault that fired, or a mid-document flush); distinct = distinct scenario documents.")
 COMPONENTS = components(["SPARQLWrapper (whole HTTP client) -> SimEndpoint", "time.sleep in io/sparql/query -> SimClock",
